@@ -48,6 +48,16 @@ RULE = ("(1) value tables: Nodes.typed_value on every text of length <= 3 over a
         "timestamp text / TIMESTAMP; any text / DEFAULT = that text) the set is not refused and the target and every scalar "
         "carrying its anchor denote the new value in the same type family (a date stays a date, a timestamp keeps local time "
         "and UTC offset; independent reading dt_den / dt_parse), anchor kept; dump + strict reload denotes the same.  "
+        "(8) real code only (set members as targets, aliases as mapping KEYS and aliases among set members are outside the "
+        "model), SEQUENCES of 1-3 sets on ONE Processor over documents loaded from YAML text: 1-4 anchored scalars (strings, "
+        "ints) aliased as mapping keys in first / middle / last position (`*a : v`), as mapping values, sequence items, flow-list "
+        "items and !!set members; !!sets as mapping values and as ELEMENTS OF SEQUENCES (also nested sequences); plain scalars "
+        "repeating the anchored values; each step targets an anchored scalar, one of its aliases, a plain or aliased set member "
+        "or a plain scalar with a fresh value; the oracle is a pure function on an independent tree reading of the document "
+        "(target slot and every key / value / item / member carrying its anchor hold the new value under the old anchor; key "
+        "order and everything else as before; set members as a multiset) and the next step starts from the oracle's tree; after "
+        "every step dump + strict reload = the oracle's data (skipped for documents whose UNEDITED form ruamel cannot dump: an "
+        "alias among set members); 1 500 documents quick / 15 000 thorough.  "
         "Sizes: quick 12 000 documents x 3 edits, 2 500 histories, 1 200 merge-key documents, 700 long-scalar and 900 date documents; thorough 150 000 documents x 3 "
         "edits, 40 000 histories, 12 000 merge-key documents, 8 000 long-scalar and 10 000 date documents (trimmed from 200 000 / 20 000 to keep the thorough tier under "
         "~20 min on a loaded 16-core machine; the value tables of (1) stay exhaustive in both tiers; all histories of one "
@@ -136,6 +146,9 @@ def run(chk: core.Check):
         dcases = gen_date_cases(rng, 900 if quick else 10000)
         chk.extra_cov["date_timestamp_document_cases"] = len(dcases)
         cases += dcases
+        acases = gen_alias_cases(rng, 1500 if quick else 15000)
+        chk.extra_cov["alias_key_and_set_document_sequences"] = len(acases)
+        cases += acases
         rng.shuffle(cases)
         chunks = core.chunked(cases, 64)
     results = core.pmap(_job, chunks)
@@ -1044,6 +1057,350 @@ def text_case(case, bump, viol, keys):
                      "strict loader (%s)\n%s" % (detail, dumped[:1500]), rep))
 
 
+# --------------------------------------------------------------------------- aliases as mapping keys / set members, sets inside sequences (real code only)
+#
+# Set members as targets, aliases used as mapping KEYS and aliases among the members of a !!set are outside the Lean model.
+# Part (8) judges the clauses directly, as short SEQUENCES of sets on one Processor: the document is read into an
+# independent tree (`ak_tree`: mapping = ordered entries [key scalar, value], sequence, set = members, scalar =
+# [value, anchor]); the oracle of one step is the pure function `ak_expect` on that tree (the target slot and every scalar
+# - key, value, item or set member - that carries the target's anchor hold the new value under the old anchor, nothing
+# else moves; key order kept, set members compared as a multiset); the next step starts from the oracle's tree, never
+# from the object the Processor works on.
+
+AK_WORDS = ["web", "db", "cache", "alpha", "beta", "k", "z", "q", "red", "n"]
+AK_INTS = ["5", "12", "40", "3"]
+AK_KEYS = ["a", "b", "c", "k", "z", "web", "db", "alpha", "l", "m"]
+
+
+def gen_alias_doc(rng):
+    """A generated document (nested tuples) in which anchored scalars are aliased as mapping keys (first / middle / last
+    position), as mapping values, sequence items and !!set members; !!sets are mapping values AND sequence elements (also
+    of nested sequences); plain scalars repeat the anchored values."""
+    st = {"anch": []}       # (name, value text) in document order
+    alias_members = rng.random() < 0.45     # ruamel cannot dump an alias among set members: those documents get no reload leg
+
+    def tok(seen, allow_def=True, words=AK_WORDS + AK_INTS):
+        for _ in range(20):
+            r = rng.random()
+            if st["anch"] and r < 0.32:
+                name, val = rng.choice(st["anch"])
+                if val not in seen:
+                    seen.add(val)
+                    return "*" + name
+            elif allow_def and len(st["anch"]) < 4 and r < 0.47:
+                val = rng.choice(AK_WORDS + AK_INTS)
+                if val not in seen and all(val != v for _, v in st["anch"]):
+                    name = "a%d" % len(st["anch"])
+                    st["anch"].append((name, val))
+                    seen.add(val)
+                    return "&%s %s" % (name, val)
+            else:
+                val = rng.choice(words)
+                if val not in seen:
+                    seen.add(val)
+                    return val
+        return "u%d" % rng.randrange(1000)
+
+    def node(depth, want=None):
+        r = rng.random()
+        kind = want or ("s" if depth <= 0 or r < 0.30 else "map" if r < 0.55 else "seq" if r < 0.75 else "set" if r < 0.90 else "flow")
+        if kind == "s":
+            return ("s", tok(set()))
+        if kind == "map":
+            seen, ents = set(), []
+            for _ in range(rng.randint(1, 4)):
+                k = tok(seen, allow_def=False, words=AK_KEYS)
+                ents.append((k, node(depth - 1)))
+            return ("map", ents)
+        if kind == "seq":
+            return ("seq", [node(depth - 1, "set" if rng.random() < 0.3 else None) for _ in range(rng.randint(1, 4))])
+        if kind == "set":
+            seen = set()
+            if alias_members:
+                return ("set", [tok(seen, allow_def=False, words=AK_WORDS) for _ in range(rng.randint(1, 3))])
+            return ("set", rng.sample(AK_WORDS, rng.randint(1, 3)))
+        seen = set()
+        return ("flow", [tok(set()) for _ in range(rng.randint(1, 3))])
+
+    top = []
+    defs = []
+    for i in range(rng.randint(1, 3)):
+        seen = set()
+        while True:
+            val = rng.choice(AK_WORDS + AK_INTS)
+            if all(val != v for _, v in st["anch"]):
+                break
+        name = "a%d" % len(st["anch"])
+        st["anch"].append((name, val))
+        defs.append(("n%d" % i, ("s", "&%s %s" % (name, val))))
+    if rng.random() < 0.6:
+        top.append(("defs", ("map", defs)))
+    else:
+        top += defs
+    names = ["hosts", "teams", "labels", "sv", "misc", "more"]
+    rng.shuffle(names)
+    for nm in names[:rng.randint(2, 5)]:
+        want = {"hosts": "map", "teams": "seq", "labels": "flow", "sv": "set"}.get(nm)
+        top.append((nm, node(2, want)))
+    return ("map", top)
+
+
+def ak_render(doc):
+    lines = ["---"]
+
+    def emit(n, ind, head):
+        """head: text already on the line that introduces n ('key:' / '-' / '*a :')"""
+        kind = n[0]
+        if kind == "s":
+            lines.append("%s %s" % (head, n[1]))
+        elif kind == "flow":
+            lines.append("%s [%s]" % (head, ", ".join(n[1])))
+        elif kind == "set":
+            lines.append("%s !!set" % head)
+            for m in n[1]:
+                lines.append("%s? %s" % (ind, m))
+        elif kind == "map":
+            if head is not None:
+                lines.append(head)
+            for k, v in n[1]:
+                emit(v, ind + "  ", "%s%s :" % (ind, k) if k.startswith("*") else "%s%s:" % (ind, k))
+        else:
+            if head is not None:
+                lines.append(head)
+            for v in n[1]:
+                emit(v, ind + "  ", ind + "-")
+    for k, v in doc[1]:
+        emit(v, "  ", "%s :" % k if k.startswith("*") else "%s:" % k)
+    return "\n".join(lines) + "\n"
+
+
+def ak_tree(n, anchors=True):
+    """Independent reading of a loaded document."""
+    from ruamel.yaml.comments import CommentedSet
+
+    def sc(x):
+        if isinstance(x, (dict, list, set, CommentedSet, tuple)):
+            raise codec.OutOfModel("container used as a key / member")
+        return ["s", codec.scalar_to_json(x), codec.anchor_of(x) if anchors else None]
+    if isinstance(n, (CommentedSet, set, frozenset)):
+        return {"t": "set", "m": [sc(m) for m in n]}
+    if isinstance(n, dict):
+        return {"t": "map", "e": [[sc(k), ak_tree(v, anchors)] for k, v in n.items()]}
+    if isinstance(n, (list, tuple)):
+        return {"t": "seq", "i": [ak_tree(v, anchors) for v in n]}
+    return sc(n)
+
+
+def ak_norm(t):
+    """Set members in canonical order (the property does not order the members of a set)."""
+    if isinstance(t, list):
+        return t
+    if t["t"] == "set":
+        return {"t": "set", "m": sorted(t["m"], key=lambda m: json.dumps(m, sort_keys=True))}
+    if t["t"] == "map":
+        return {"t": "map", "e": [[k, ak_norm(v)] for k, v in t["e"]]}
+    return {"t": "seq", "i": [ak_norm(v) for v in t["i"]]}
+
+
+def ak_slots(t, pre=(), path=""):
+    """(address, path text, role, scalar) of every scalar that a path can name: mapping values, sequence items, members."""
+    out = []
+    if isinstance(t, list):
+        return out
+
+    def ktext(s):
+        return str(s[1].get("v"))
+    if t["t"] == "map":
+        for i, (k, v) in enumerate(t["e"]):
+            p = (path + "." if path else "") + ktext(k)
+            if isinstance(v, list):
+                out.append((pre + (("v", i),), p, "map-value", v))
+            else:
+                out += ak_slots(v, pre + (("v", i),), p)
+    elif t["t"] == "seq":
+        for i, v in enumerate(t["i"]):
+            p = path + "[%d]" % i
+            if isinstance(v, list):
+                out.append((pre + (("i", i),), p, "seq-item", v))
+            else:
+                out += ak_slots(v, pre + (("i", i),), p)
+    else:
+        for i, m in enumerate(t["m"]):
+            if m[1]["k"] == "str":
+                out.append((pre + (("m", i),), (path + "." if path else "") + ktext(m), "set-member", m))
+    return out
+
+
+def ak_expect(t, addr, anchor, new, pre=()):
+    """The oracle of one set: a copy of the tree in which the slot `addr` and every scalar carrying `anchor` is `new`."""
+    def sc(s, here):
+        if here == tuple(addr) or (anchor and s[2] == anchor):
+            return ["s", new, s[2]]
+        return s
+    if isinstance(t, list):
+        return sc(t, pre)
+    if t["t"] == "map":
+        return {"t": "map", "e": [[sc(k, pre + (("k", i),)), ak_expect(v, addr, anchor, new, pre + (("v", i),))] for i, (k, v) in enumerate(t["e"])]}
+    if t["t"] == "seq":
+        return {"t": "seq", "i": [ak_expect(v, addr, anchor, new, pre + (("i", i),)) for i, v in enumerate(t["i"])]}
+    return {"t": "set", "m": [sc(m, pre + (("m", i),)) for i, m in enumerate(t["m"])]}
+
+
+def ak_diff(before, exp, got, where="root"):
+    """First difference between the oracle's tree and the real one: (signature tail, text) or None."""
+    def one(b, e, g, role, at):
+        if e == g:
+            return None
+        if not isinstance(g, list):
+            return "structure-changed", "%s: a scalar became a container" % at
+        if e != b:
+            return ("target-not-updated:" + role if g == b else "wrong-value:" + role), "%s holds %s, expected %s" % (at, g, e)
+        return "bystander-changed:" + role, "%s was %s, now %s" % (at, b, g)
+    if isinstance(exp, list):
+        return one(before, exp, got, "scalar", where)
+    if isinstance(got, list) or got["t"] != exp["t"]:
+        return "structure-changed", "%s: container kind changed" % where
+    if exp["t"] == "map":
+        if len(exp["e"]) != len(got["e"]):
+            return "structure-changed", "%s: %d entries, expected %d (keys %s)" % (where, len(got["e"]), len(exp["e"]), [k[1].get("v") for k, _ in got["e"]])
+        for i, ((bk, bv), (ek, ev), (gk, gv)) in enumerate(zip(before["e"], exp["e"], got["e"])):
+            d = one(bk, ek, gk, "map-key", "%s key #%d" % (where, i))
+            if d:
+                return d
+            d = ak_diff(bv, ev, gv, "%s.%s" % (where, ek[1].get("v")))
+            if d:
+                return d
+        return None
+    if exp["t"] == "seq":
+        if len(exp["i"]) != len(got["i"]):
+            return "structure-changed", "%s: %d items, expected %d" % (where, len(got["i"]), len(exp["i"]))
+        for i, (bv, ev, gv) in enumerate(zip(before["i"], exp["i"], got["i"])):
+            d = ak_diff(bv, ev, gv, "%s[%d]" % (where, i))
+            if d:
+                return d
+        return None
+    key = lambda m: json.dumps(m, sort_keys=True)   # noqa
+    if sorted(map(key, exp["m"])) == sorted(map(key, got["m"])):
+        return None
+    have = set(map(key, got["m"]))
+    for b, e in zip(before["m"], exp["m"]):
+        if e != b and key(e) not in have:
+            return ("target-not-updated:set-member" if key(b) in have else "wrong-value:set-member",
+                    "%s: the set holds %s, expected the member %s" % (where, [m[1].get("v") for m in got["m"]], e))
+    return "bystander-changed:set-member", "%s: the set holds %s, expected %s" % (where, [m[1].get("v") for m in got["m"]], [m[1].get("v") for m in exp["m"]])
+
+
+def ak_strip(t):
+    if isinstance(t, list):
+        return ["s", t[1], None]
+    if t["t"] == "set":
+        return {"t": "set", "m": [ak_strip(m) for m in t["m"]]}
+    if t["t"] == "map":
+        return {"t": "map", "e": [[ak_strip(k), ak_strip(v)] for k, v in t["e"]]}
+    return {"t": "seq", "i": [ak_strip(v) for v in t["i"]]}
+
+
+def ak_reload(data):
+    """("ok", tree without anchors) | (status, detail, dumped text)"""
+    import io
+    from yamlpath.common import Parsers
+    buf = io.StringIO()
+    try:
+        Parsers.get_yaml_editor().dump(data, buf)
+    except Exception as e:  # noqa
+        return "dump-failed", type(e).__name__, ""
+    try:
+        back = mk_load(buf.getvalue())
+    except Exception as e:  # noqa
+        return "reload-crashed", type(e).__name__, buf.getvalue()
+    if back is None:
+        return "reload-failed", "", buf.getvalue()
+    return "ok", ak_norm(ak_tree(back, anchors=False)), buf.getvalue()
+
+
+def ak_quiet(fn):
+    """The strict loader reports what it rejects on stderr; the verdict carries that text."""
+    import contextlib
+    import io
+    with contextlib.redirect_stderr(io.StringIO()):
+        return fn()
+
+
+def gen_alias_cases(rng, ndocs):
+    return [{"aliasdoc": True, "text": ak_render(gen_alias_doc(rng)), "seed": rng.randrange(1 << 30), "nsteps": rng.choice([1, 2, 2, 3])}
+            for _ in range(ndocs)]
+
+
+def ak_pick(rng, tree, k):
+    """One step for the oracle's current tree: a slot (anchored scalars and set members preferred) and a fresh value."""
+    slots = ak_slots(tree)
+    if not slots:
+        return None
+    r = rng.random()
+    pref = [s for s in slots if s[3][2]] if r < 0.55 else [s for s in slots if s[2] == "set-member"] if r < 0.8 else slots
+    addr, path, role, _ = rng.choice(pref or slots)
+    v = ("v%d" % k) if rng.random() < 0.7 else 7000 + k
+    return {"addr": [list(a) for a in addr], "path": path, "v": v}
+
+
+def alias_case(case, bump, viol, keys):
+    from yamlpath import Processor
+    text = case["text"]
+    doc = mk_load(text)
+    if doc is None:
+        bump("alias-doc:skipped-does-not-load")
+        return
+    cur = ak_tree(doc)
+    pre = ak_quiet(lambda: ak_reload(mk_load(text)))
+    reload_leg = pre[0] == "ok" and pre[1] == ak_norm(ak_strip(cur))
+    if not reload_leg:
+        bump("alias-doc:reload:skipped-unedited-document-does-not-roundtrip")     # ruamel: an alias among the members of a !!set
+    proc = Processor(core.quiet_logger(), doc)          # ONE Processor for the whole sequence
+    rng = random.Random(case["seed"])
+    steps = case.get("steps")
+    done = []
+    for k in range(len(steps) if steps else case["nsteps"]):
+        step = steps[k] if steps else ak_pick(rng, cur, k)
+        if step is None:
+            return
+        done.append(step)
+        addr = tuple(tuple(a) for a in step["addr"])
+        slot = [s for s in ak_slots(cur) if s[0] == addr]
+        if not slot:
+            bump("alias-doc:skipped-slot-not-found")
+            return
+        _, path, role, old = slot[0]
+        exp = ak_expect(cur, addr, old[2], codec.scalar_to_json(step["v"]))
+        res = ed.guarded(lambda: proc.set_value(path, step["v"], mustexist=True))
+        rep = {"aliasdoc": True, "text": text, "seed": case["seed"], "steps": list(done)}
+        what = "step %d of %s: set_value(%s, %r) [%s%s]" % (k + 1, [s["path"] for s in done], path, step["v"], role, ", anchor &" + old[2] if old[2] else "")
+        bump("alias-doc:step:%s:%s" % (role, "anchored" if old[2] else "plain"))
+        bump("alias-doc:impl:" + res[0].split(":")[0])
+        if res[0] == "timeout":
+            viol.append(("timeout", what + " did not finish", rep))
+            return
+        if res[0] != "ok":
+            viol.append(("alias-doc:%s@%s" % (res[0], res[1]), what + " raised %s (%s): %s\n%s" % (res[0], res[1], str(res[2])[:160], text), rep))
+            return
+        got = ak_tree(proc.data)
+        d = ak_diff(cur, exp, got)
+        if d:
+            viol.append(("alias-doc:" + d[0], what + ": %s\n%s" % (d[1], text), rep))
+            return
+        if reload_leg:
+            rl = ak_quiet(lambda: ak_reload(proc.data))
+            bump("alias-doc:reload:" + rl[0])
+            if rl[0] != "ok":
+                viol.append(("alias-doc:reload:" + rl[0], what + ": the edited document does not dump / reload with yamlpath's own editor and strict "
+                             "loader (%s)\n%s" % (rl[1], rl[2][:1200]), rep))
+                return
+            if rl[1] != ak_norm(ak_strip(exp)):
+                viol.append(("alias-doc:reload:data-differs", what + ": dump + strict reload holds different data\n" + rl[2][:1200], rep))
+                return
+        cur = exp
+    keys.append(_key({"doc": text, "path": [s["path"] for s in done], "v": [s["v"] for s in done]}))
+
+
 # --------------------------------------------------------------------------- floats of every magnitude (real code only)
 #
 # Floats whose repr() is in exponent form (|x| < 1e-4 or |x| >= 1e16) are outside the (m, e) domain the value tables
@@ -1255,6 +1612,13 @@ def _job(cases):
             stats["n"] += 1
             try:
                 text_case(case, bump, viol, keys)
+            except codec.OutOfModel:
+                stats["oom"] += 1
+            continue
+        if case.get("aliasdoc"):
+            stats["n"] += 1
+            try:
+                alias_case(case, bump, viol, keys)
             except codec.OutOfModel:
                 stats["oom"] += 1
             continue
@@ -1474,7 +1838,9 @@ def judge_history(h, ans, bump, viol, disag, keys, stats):
             stats["oom"] += 1
             return
         what = "history step %s %s" % (step["o"], step["path"])
-        if res[0].startswith("crash") or res[0] == "timeout":
+        if res[0] == "timeout" or (res[0].startswith("crash") and m.get("err") != res[0]):
+            # (a crash the model predicts - a create step whose negative index lies below the list: IndexError, document
+            # unchanged - is the evaluator's refusal, counted by C09 as not judged)
             viol.append(("history:%s@%s" % (res[0], res[1]), what + " raised " + res[0], rep))
             return
         if "err" in m:
